@@ -444,7 +444,7 @@ theorem evalAll_fold (hwf : RankWF u) (immune limited : List Int) (pen : Nat →
 theorem evalAll_tableOK (hwf : RankWF u) (immune limited : List Int) (pen : Nat → Rat) :
     TableOK cfg (u.attrs.map (·.id)) (evalAll u cfg immune limited pen) := by
   have := evalAll_fold (cfg := cfg) hwf immune limited pen u.attrs [] [] rfl
-    ⟨fun _ h => by cases h, fun _ _ _ h => by cases h⟩
+    ⟨fun _ h => (by cases h), fun _ _ _ h => (by cases h)⟩
   simpa [evalAll] using this
 
 theorem read_ne_notWF {t : Table} (h : ∀ entry ∈ t, entry.2 ≠ .notWF) (x : Item) (a : Int) :
@@ -455,5 +455,24 @@ theorem read_ne_notWF {t : Table} (h : ∀ entry ∈ t, entry.2 ≠ .notWF) (x :
   · cases hg : t.get x.id a with
     | some v => obtain ⟨entry, he, rfl⟩ := get_mem hg; simpa using h entry he
     | none => simp
+
+/-! ## Example universes for non-vacuity
+
+`wfUniverse`: attribute 10 feeds 20 (`post_mul`), 20 feeds 30 (`mod_add`), 30 is capped by 10; listed
+in rank order.  `cyclicUniverse`: 10 feeds 20 and 20 feeds 10.  Both carried by one ship type whose
+passive effect 1000 holds the (item, self) modifiers. -/
+def wfUniverse : Universe :=
+  { attrs := [⟨10, none, none, true, true⟩, ⟨20, none, none, true, true⟩, ⟨30, some 10, none, true, true⟩],
+    effects := [⟨1000, 0, none, none, false,
+      [⟨1, 1, none, 20, 6, 1, none, 10⟩, ⟨1, 1, none, 30, 4, 1, none, 20⟩]⟩],
+    types := [⟨1, none, some 6, none, [(10, 3), (20, 2), (30, 1)], [1000], []⟩] }
+def cyclicUniverse : Universe :=
+  { attrs := [⟨10, none, none, true, true⟩, ⟨20, none, none, true, true⟩],
+    effects := [⟨1000, 0, none, none, false,
+      [⟨1, 1, none, 20, 6, 1, none, 10⟩, ⟨1, 1, none, 10, 6, 1, none, 20⟩]⟩],
+    types := [⟨1, none, some 6, none, [(10, 3), (20, 2)], [1000], []⟩] }
+def oneShipConfig : Config :=
+  { hasSource := true, fits := [⟨0, some 1, none, none⟩],
+    items := [⟨1, .ship, 1, 0, 1, none, none, none, []⟩] }
 
 end Eos.World
